@@ -31,6 +31,18 @@ PROPS = {
             'A1: sequence and string lengths are <= isize::MAX (Rust allocation invariant), needed for `len as i64`',
         ],
     },
+    'C07': {
+        'design_ref': 'DESIGN.md section 6.3',
+        'verus_units': [
+            {'template': 'units/c07_policy.rs.in', 'modes': [[]], 'canary': True},
+        ],
+        'kani': [],
+        'not_covered': [
+            'TypeChecker::check_binary and the compound-assignment check (methods on checker state), const_eval\'s use',
+            'determine_binop_plan / emit_binop_expr (TokenStream-valued)',
+        ],
+        'assumptions': [],
+    },
 }
 
 GLOBAL_ASSUMPTIONS = [
